@@ -1,9 +1,11 @@
 (** Property C16 -- headers the caller adds before sending always reach the wire.
     Statements only; proofs are in proofs/C13_proofs.v (shared with C13), the writer and analysis
-    facts come from proofs/C02_proofs.v, C02_analysis.v, C17_proofs.v. *)
+    facts come from proofs/C02_proofs.v, C02_analysis.v, C17_proofs.v; the strengthening after
+    review 3 (second half of this file) is proved in proofs/C16_more.v and proofs/C16_first.v. *)
 From Coq Require Import List.
 From Hoot Require Import Base Chunk Body Httparse Parser Url Request Call Flow Script.
 From Hoot.proofs Require Import BytesLemmas C17_proofs C02_proofs C02_analysis C13_proofs C13_examples.
+From Hoot.proofs Require Import C16_more C16_first.
 Open Scope N_scope.
 
 (* ------------------------------------------------------------------ the specification *)
@@ -196,6 +198,281 @@ Example c16_nonvacuous :
     s2b "host: b.test" ++ CRLF ++ s2b "accept: */*" ++ CRLF ++ CRLF.
 Proof. vm_compute. repeat split; try discriminate; auto. Qed.
 
+(* ================================================================== strengthening (review 3) *)
+
+(** Vocabulary of the additions (definitions in proofs/C16_more.v, C16_first.v).
+    [header_ops kvs]: the script operations "header k v" for [kvs].  [prep]: what a caller does to a
+    Prepare flow -- [PH k v] = header(k, v), [PD] = send_body_despite_method --, [run_prep f ps] runs
+    a list of them on a flow, stopping at the first failure; [prep_kvs ps] are the headers among
+    them, in order.  [head_of f]: the request head of a flow field by field.
+    Recipient side, written from RFC 9112 (lines end in CRLF, a field line is name ":" SP value) the
+    way the Python oracle does it, independent of the model's renderer: [split_crlf] splits a byte
+    string at every CRLF, [split_colon] a line at the first ": ", [first_fields n head] are the
+    first [n] lines after the request line, split.  [count_header h l]: how often the field [h]
+    (same name and value) occurs in [l]. *)
+Theorem c16_more_defs : forall f kvs k v ps n head h l b,
+  header_ops kvs = map (fun kv => OHeader (fst kv) (snd kv)) kvs /\
+  prep_op (PH k v) = OHeader k v /\ prep_op PD = ODespite /\
+  run_prep f [] = Ok f /\
+  run_prep f (PH k v :: ps) = (do f1 <- prepare_header f k v; run_prep f1 ps) /\
+  run_prep f (PD :: ps) = (do f1 <- send_body_despite_method f; run_prep f1 ps) /\
+  prep_kvs [] = [] /\ prep_kvs (PH k v :: ps) = (k, v) :: prep_kvs ps /\ prep_kvs (PD :: ps) = prep_kvs ps /\
+  head_of f =
+    prelude_line (req_of f) ++
+    concat (map field_line (am_added (req_of f))) ++
+    concat (map field_line (host_added (req_of f) ++ framing_added (req_of f) (c_writer (i_call f)))) ++
+    concat (map field_line (am_inherited (req_of f))) ++ CRLF /\
+  first_fields n head = map split_colon (take n (tl (split_crlf head))) /\
+  count_header h l = len (filter (fun x => beq_bytes (fst h) (fst x) && beq_bytes (snd h) (snd x)) l) /\
+  not_cr b = negb (b =? 13).
+Proof. intros. repeat split. Qed.
+
+Example c16_split_examples :
+  split_crlf (s2b "GET / HTTP/1.1" ++ CRLF ++ s2b "a: b: c" ++ CRLF ++ [13] ++ CRLF ++ CRLF) =
+    [s2b "GET / HTTP/1.1"; s2b "a: b: c"; [13]; []; []] /\
+  split_crlf [] = [[]] /\ split_crlf [10; 13] = [[10; 13]] /\
+  split_colon (s2b "a: b: c") = Some (s2b "a", s2b "b: c") /\
+  split_colon (s2b "a:b") = None /\ split_colon (s2b ": ") = Some ([], []).
+Proof. vm_compute. repeat split. Qed.
+
+(* ------------------------------------------------------------------ one buffer takes the whole head *)
+
+(** Liveness (review suggestion 8): a flow that has not written yet, after any successful sequence
+    of [header] calls, accepted by analysis; ONE write with a buffer at least as long as the head
+    emits exactly the head -- request line, the headers added before and now in order, what analysis
+    adds, the inherited headers, empty line -- and the flow can advance. *)
+Theorem c16_one_shot : forall f kvs f' cap,
+  fresh_flow f -> prepare_headers f kvs = Ok f' ->
+  call_invalid (i_call f') = false -> sendable (i_call f') ->
+  let head :=
+    prelude_line (req_of f) ++
+    concat (map field_line (am_added (req_of f) ++ map lower_kv kvs)) ++
+    concat (map field_line (host_added (req_of f') ++ framing_added (req_of f') (c_writer (i_call f)))) ++
+    concat (map field_line (am_inherited (req_of f))) ++ CRLF in
+  len head <= cap ->
+  head = render_request_head (c_req (analysed_call (i_call f'))) /\
+  exists g, send_request_write f' cap = Ok (g, head) /\ send_request_can_proceed g = Ok true /\
+            fwrun f' [cap] = {| fw_flow := g; fw_out := head |}.
+Proof. exact c16_one_shot_lemma. Qed.
+
+(* ------------------------------------------------------------------ flows reached by running the model *)
+
+(** Every history of script operations from the initial state (any number of requests, exchanges,
+    redirects followed to any depth, header additions, ...): a Prepare flow it holds has not
+    written yet, so all flow-level theorems above apply to it; and whenever a redirect has been
+    followed ([s_next] is the flow [as_new_flow] produced), "follow" makes that flow the current
+    Prepare flow and it carries no added headers (those of earlier hops are gone). *)
+Theorem c16_reached_fresh : forall ops,
+  (forall f, s_obj (run_ops s_init ops) = ObFlow TPrepare f -> fresh_flow f) /\
+  (forall n, s_next (run_ops s_init ops) = Some n ->
+     s_obj (run_ops s_init (ops ++ [OFollow])) = ObFlow TPrepare n /\
+     fresh_flow n /\ am_added (req_of n) = []).
+Proof. intros ops. split; [apply script_prepare_fresh|apply script_follow]. Qed.
+
+(** Composition on the wire, at ANY redirect depth: [ops] is an arbitrary history after which the
+    script holds a Prepare flow [f]; then the caller adds [kvs] (all calls succeed), proceeds and
+    writes once with a buffer that is large enough.  If analysis accepts the result, the one head
+    observed is EXACTLY: request line, the added headers' field lines in the order added (after the
+    ones [f] already had: none if [f] is new, see [c16_reached_fresh]), the analysis-added fields,
+    the inherited non-suppressed fields, CRLF; and the flow is ready to advance.
+    ([heads (run_obs s ops)]: the byte strings reported by the write_head operations among [ops]
+    run from state [s].) *)
+Theorem c16_wire_exact : forall ops f kvs f' cap,
+  s_obj (run_ops s_init ops) = ObFlow TPrepare f ->
+  prepare_headers f kvs = Ok f' -> call_invalid (i_call f') = false -> sendable (i_call f') ->
+  let head :=
+    prelude_line (req_of f) ++
+    concat (map field_line (am_added (req_of f) ++ map lower_kv kvs)) ++
+    concat (map field_line (host_added (req_of f') ++ framing_added (req_of f') (c_writer (i_call f)))) ++
+    concat (map field_line (am_inherited (req_of f))) ++ CRLF in
+  len head <= cap ->
+  let tail_ops := header_ops kvs ++ [OProceed; OWriteHead cap] in
+  heads (run_obs (run_ops s_init ops) tail_ops) = [head] /\
+  exists g, s_obj (run_ops s_init (ops ++ tail_ops)) = ObFlow TSendRequest g /\
+            send_request_can_proceed g = Ok true.
+Proof. exact c16_wire_exact_lemma. Qed.
+
+(* ------------------------------------------------------------------ what the recipient (and the oracle) sees *)
+
+(** Whenever one write emitted the whole head of a flow that had no added headers before the
+    [header] calls [kvs]: splitting the emitted bytes at CRLF and each line at the first ": ", the
+    first [len kvs] field lines after the request line are exactly the added headers (name lower-
+    cased, value byte for byte), in the order added -- hence ahead of every other field.
+    Side condition [not_cr]: the request target contains no CR (http::Uri admits no control characters;
+    the model's [uri] is an arbitrary byte string, and a CRLF inside the target would shift the
+    lines). *)
+Theorem c16_added_first : forall f kvs f' g cap head,
+  fresh_flow f -> am_added (req_of f) = [] -> prepare_headers f kvs = Ok f' ->
+  call_invalid (i_call f') = false -> sendable (i_call f') ->
+  send_request_write f' cap = Ok (g, head) -> send_request_can_proceed g = Ok true ->
+  forallb not_cr (u_pq (am_eff_uri (req_of f))) = true ->
+  first_fields (len kvs) head = map (fun kv => Some (lower_kv kv)) kvs.
+Proof. exact c16_added_first_lemma. Qed.
+
+(** The same for a flow reached by a history (exactly what the Python oracle checks on the
+    observation of "header*, proceed, write_head"). *)
+Theorem c16_added_first_script : forall ops f kvs f' cap,
+  s_obj (run_ops s_init ops) = ObFlow TPrepare f -> am_added (req_of f) = [] ->
+  prepare_headers f kvs = Ok f' -> call_invalid (i_call f') = false -> sendable (i_call f') ->
+  len (head_of f') <= cap ->
+  forallb not_cr (u_pq (am_eff_uri (req_of f))) = true ->
+  exists head,
+    heads (run_obs (run_ops s_init ops) (header_ops kvs ++ [OProceed; OWriteHead cap])) = [head] /\
+    first_fields (len kvs) head = map (fun kv => Some (lower_kv kv)) kvs.
+Proof. exact c16_added_first_script_lemma. Qed.
+
+(* ------------------------------------------------------------------ send_body_despite_method among the additions *)
+
+(** [send_body_despite_method] keeps the request of the flow (and with it everything added so far);
+    on a flow that has not written yet it always succeeds. *)
+Theorem c16_despite_keeps_request : forall f,
+  (forall f', send_body_despite_method f = Ok f' -> req_of f' = req_of f) /\
+  (fresh_flow f -> exists f', send_body_despite_method f = Ok f' /\ fresh_flow f').
+Proof. exact c16_despite_keeps_request_lemma. Qed.
+
+(** Any interleaving of [header] calls and [send_body_despite_method] on any flow: whenever it
+    succeeded, the effective headers are the previously added ones, then ALL the headers of the
+    [header] calls in order -- those made before a despite as well as those after --, then the
+    unchanged inherited ones. *)
+Theorem c16_despite_order : forall f ps f',
+  run_prep f ps = Ok f' ->
+  am_headers (req_of f') = (am_added (req_of f) ++ map lower_kv (prep_kvs ps)) ++ am_inherited (req_of f) /\
+  am_added (req_of f') = am_added (req_of f) ++ map lower_kv (prep_kvs ps) /\
+  am_inherited (req_of f') = am_inherited (req_of f) /\
+  am_req (req_of f') = am_req (req_of f) /\ am_uri (req_of f') = am_uri (req_of f) /\
+  am_unset (req_of f') = am_unset (req_of f) /\
+  forallb valid_kv (prep_kvs ps) = true /\
+  (fresh_flow f -> fresh_flow f').
+Proof. exact c16_despite_order_lemma. Qed.
+
+(** ... and it does succeed when the flow has not written yet and the headers are valid and fit. *)
+Theorem c16_despite_total : forall ps f,
+  fresh_flow f -> forallb valid_kv (prep_kvs ps) = true ->
+  len (am_added (req_of f)) + len (prep_kvs ps) <= MAX_EXTRA_HEADERS ->
+  exists f', run_prep f ps = Ok f'.
+Proof. exact run_prep_ok. Qed.
+
+(** The shape a seeded change broke: additions, despite, more additions. *)
+Theorem c16_despite_keeps : forall f kvs1 f1 f2 kvs2 f3,
+  prepare_headers f kvs1 = Ok f1 -> send_body_despite_method f1 = Ok f2 -> prepare_headers f2 kvs2 = Ok f3 ->
+  req_of f2 = req_of f1 /\
+  am_added (req_of f3) = am_added (req_of f) ++ map lower_kv kvs1 ++ map lower_kv kvs2 /\
+  am_headers (req_of f3) =
+    (am_added (req_of f) ++ map lower_kv kvs1 ++ map lower_kv kvs2) ++ am_inherited (req_of f).
+Proof. exact c16_despite_keeps_lemma. Qed.
+
+(** On the wire, for a flow reached by any history: like [c16_wire_exact] with
+    [send_body_despite_method] anywhere among the additions. *)
+Theorem c16_despite_wire_exact : forall ops f ps f' cap,
+  s_obj (run_ops s_init ops) = ObFlow TPrepare f ->
+  run_prep f ps = Ok f' -> call_invalid (i_call f') = false -> sendable (i_call f') ->
+  let head :=
+    prelude_line (req_of f) ++
+    concat (map field_line (am_added (req_of f) ++ map lower_kv (prep_kvs ps))) ++
+    concat (map field_line (host_added (req_of f') ++ framing_added (req_of f') (c_writer (i_call f')))) ++
+    concat (map field_line (am_inherited (req_of f))) ++ CRLF in
+  len head <= cap ->
+  let tail_ops := map prep_op ps ++ [OProceed; OWriteHead cap] in
+  heads (run_obs (run_ops s_init ops) tail_ops) = [head] /\
+  exists g, s_obj (run_ops s_init (ops ++ tail_ops)) = ObFlow TSendRequest g /\
+            send_request_can_proceed g = Ok true.
+Proof. exact c16_script_wire. Qed.
+
+(* ------------------------------------------------------------------ no de-duplication *)
+
+(** Adding a header equal in name and value to one of the original request ([h] arbitrary, in
+    particular an original field, suppressed or not; original names are lower case) appends it all
+    the same: the field occurs once more among the effective headers.  If the original is not
+    suppressed it is now there (at least) twice; if its name is suppressed the inherited copy stays
+    out and the added copy is in. *)
+Theorem c16_same_as_original : forall f h,
+  valid_kv h = true -> lower (fst h) = fst h -> len (am_added (req_of f)) < MAX_EXTRA_HEADERS ->
+  exists f', prepare_header f (fst h) (snd h) = Ok f' /\
+    am_added (req_of f') = am_added (req_of f) ++ [h] /\
+    am_inherited (req_of f') = am_inherited (req_of f) /\
+    count_header h (am_headers (req_of f')) = count_header h (am_headers (req_of f)) + 1 /\
+    (In h (rq_headers (am_request (req_of f))) -> mem_bytes (fst h) (am_unset (req_of f)) = false ->
+     2 <= count_header h (am_headers (req_of f'))) /\
+    (mem_bytes (fst h) (am_unset (req_of f)) = true ->
+     count_header h (am_inherited (req_of f')) = 0 /\ 1 <= count_header h (am_added (req_of f'))).
+Proof. exact c16_same_as_original_lemma. Qed.
+
+(* ------------------------------------------------------------------ examples / non-vacuity of the additions *)
+
+(** Depth 2: the flow after the two followed redirects a.test -> b.test -> a.test of
+    [C13_examples.two_hops] (policy SameHost: back on a.test the authorization is inherited again,
+    the cookie is not).  All hypotheses of [c16_one_shot], [c16_wire_exact], [c16_added_first] and
+    [c16_added_first_script] hold and the observed head is the expected one. *)
+Definition ex16_depth2 : inner :=
+  match s_obj (run_ops s_init two_hops) with ObFlow _ f => f | _ => dummy_flow end.
+Definition ex16_kvs2 : list header := [(s2b "Cookie", s2b "new=2"); (s2b "X-Trace", [255; 9])].
+Definition ex16_after2 : inner :=
+  match prepare_headers ex16_depth2 ex16_kvs2 with Ok f' => f' | _ => ex16_depth2 end.
+Definition ex16_head2 : bytes :=
+  s2b "GET /two HTTP/1.1" ++ CRLF ++ s2b "cookie: new=2" ++ CRLF ++ s2b "x-trace: " ++ [255; 9] ++ CRLF ++
+  s2b "host: a.test" ++ CRLF ++ s2b "authorization: secret" ++ CRLF ++ s2b "accept: */*" ++ CRLF ++ CRLF.
+
+Example c16_wire_exact_depth2 :
+  s_obj (run_ops s_init two_hops) = ObFlow TPrepare ex16_depth2 /\
+  fresh_flow ex16_depth2 /\ am_added (req_of ex16_depth2) = [] /\
+  am_unset (req_of ex16_depth2) = [s2b "cookie"; s2b "content-length"] /\
+  prepare_headers ex16_depth2 ex16_kvs2 = Ok ex16_after2 /\
+  call_invalid (i_call ex16_after2) = false /\ sendable (i_call ex16_after2) /\
+  head_of ex16_after2 = ex16_head2 /\ len ex16_head2 <= 200 /\
+  forallb not_cr (u_pq (am_eff_uri (req_of ex16_depth2))) = true /\
+  heads (run_obs (run_ops s_init two_hops) (header_ops ex16_kvs2 ++ [OProceed; OWriteHead 200])) = [ex16_head2] /\
+  first_fields (len ex16_kvs2) ex16_head2 = [Some (s2b "cookie", s2b "new=2"); Some (s2b "x-trace", [255; 9])].
+Proof. vm_compute. repeat split; try discriminate; auto. Qed.
+
+(** Depth 1, despite in the middle (a GET: without it the body framing is refused): the headers
+    added before and after it are on the wire, in order, ahead of Host, the framing field analysis
+    adds for the body, and the inherited field. *)
+Definition ex16_depth1_never : inner :=
+  match s_obj (run_ops s_init ([ONew ex16_orig] ++ exchange (s2b "http://b.test/next") Never)) with
+  | ObFlow _ f => f | _ => dummy_flow end.
+Definition ex16_ps : list prep :=
+  [PH (s2b "Cookie") (s2b "new=2"); PH (s2b "X-Before") (s2b "1"); PD; PH (s2b "X-After") (s2b "2")].
+Definition ex16_after_ps : inner :=
+  match run_prep ex16_depth1_never ex16_ps with Ok f' => f' | _ => ex16_depth1_never end.
+Definition ex16_head_ps : bytes :=
+  s2b "GET /next HTTP/1.1" ++ CRLF ++ s2b "cookie: new=2" ++ CRLF ++ s2b "x-before: 1" ++ CRLF ++
+  s2b "x-after: 2" ++ CRLF ++ s2b "host: b.test" ++ CRLF ++ s2b "transfer-encoding: chunked" ++ CRLF ++
+  s2b "accept: */*" ++ CRLF ++ CRLF.
+
+Example c16_despite_nonvacuous :
+  s_obj (run_ops s_init ([ONew ex16_orig] ++ exchange (s2b "http://b.test/next") Never)) =
+    ObFlow TPrepare ex16_depth1_never /\
+  fresh_flow ex16_depth1_never /\
+  am_unset (req_of ex16_depth1_never) = [s2b "authorization"; s2b "cookie"; s2b "content-length"] /\
+  run_prep ex16_depth1_never ex16_ps = Ok ex16_after_ps /\
+  prep_kvs ex16_ps = [(s2b "Cookie", s2b "new=2"); (s2b "X-Before", s2b "1"); (s2b "X-After", s2b "2")] /\
+  forallb valid_kv (prep_kvs ex16_ps) = true /\
+  len (am_added (req_of ex16_depth1_never)) + len (prep_kvs ex16_ps) <= MAX_EXTRA_HEADERS /\
+  call_invalid (i_call ex16_after_ps) = false /\ sendable (i_call ex16_after_ps) /\
+  len ex16_head_ps <= 4096 /\
+  heads (run_obs (run_ops s_init ([ONew ex16_orig] ++ exchange (s2b "http://b.test/next") Never))
+                 (map prep_op ex16_ps ++ [OProceed; OWriteHead 4096])) = [ex16_head_ps].
+Proof. vm_compute. repeat split; try discriminate; auto. Qed.
+
+(** Depth 1, re-attaching the original cookie: the inherited "cookie: old=1" is suppressed on the
+    redirected flow; the caller adds the very same field again and it is sent. *)
+Definition ex16_cookie : header := (s2b "cookie", s2b "old=1").
+
+Example c16_same_cookie_at_depth_1 :
+  valid_kv ex16_cookie = true /\ lower (fst ex16_cookie) = fst ex16_cookie /\
+  len (am_added (req_of ex16_depth1_never)) < MAX_EXTRA_HEADERS /\
+  In ex16_cookie (rq_headers (am_request (req_of ex16_depth1_never))) /\
+  mem_bytes (fst ex16_cookie) (am_unset (req_of ex16_depth1_never)) = true /\
+  count_header ex16_cookie (am_headers (req_of ex16_depth1_never)) = 0 /\
+  heads (run_obs s_init
+           ([ONew ex16_orig] ++ exchange (s2b "http://b.test/next") Never ++
+            [OHeader (s2b "cookie") (s2b "old=1"); OProceed; OWriteHead 4096])) =
+  [ s2b "GET /start HTTP/1.1" ++ CRLF ++ s2b "host: a.test" ++ CRLF ++
+    s2b "authorization: old" ++ CRLF ++ s2b "cookie: old=1" ++ CRLF ++ s2b "accept: */*" ++ CRLF ++ CRLF;
+    s2b "GET /next HTTP/1.1" ++ CRLF ++ s2b "cookie: old=1" ++ CRLF ++ s2b "host: b.test" ++ CRLF ++
+    s2b "accept: */*" ++ CRLF ++ CRLF ].
+Proof. vm_compute. repeat split; try discriminate; auto. Qed.
+
 Print Assumptions c16_defs.
 Print Assumptions c16_effective_def.
 Print Assumptions c16_header_cases.
@@ -207,3 +484,19 @@ Print Assumptions c16_wire_bytes.
 Print Assumptions c16_redirect_depth.
 Print Assumptions c16_cookie_at_depth_1.
 Print Assumptions c16_nonvacuous.
+Print Assumptions c16_more_defs.
+Print Assumptions c16_split_examples.
+Print Assumptions c16_one_shot.
+Print Assumptions c16_reached_fresh.
+Print Assumptions c16_wire_exact.
+Print Assumptions c16_added_first.
+Print Assumptions c16_added_first_script.
+Print Assumptions c16_despite_keeps_request.
+Print Assumptions c16_despite_order.
+Print Assumptions c16_despite_total.
+Print Assumptions c16_despite_keeps.
+Print Assumptions c16_despite_wire_exact.
+Print Assumptions c16_same_as_original.
+Print Assumptions c16_wire_exact_depth2.
+Print Assumptions c16_despite_nonvacuous.
+Print Assumptions c16_same_cookie_at_depth_1.
